@@ -306,6 +306,17 @@ class NPX:
             return r
         return _np.nextafter(x, y)
 
+    def bincount(self, x, weights=None, minlength=0):
+        if weights is None or _np.asarray(weights).dtype != object:
+            return _np.bincount(x, weights=weights, minlength=minlength)
+        x = _np.asarray(x)
+        n = max(int(x.max()) + 1 if x.size else 0, minlength)
+        out = _np.empty(n, dtype=object)
+        out.fill(0.0)
+        for i, w in zip(x, weights):
+            out[int(i)] = out[int(i)] + w
+        return out
+
     def power(self, a, b):
         a_ = _np.asarray(a)
         if a_.dtype != object and not is_sym(b):
